@@ -66,7 +66,9 @@ func shutdownWindow(t *testing.T, rep *kit.Report, env kit.Env) (evals int64) {
 			domain := fmt.Sprintf("late-%s-%s.myco", module, what)
 			mapIP := netip.MustParseAddr("fd10:aaaa::77")
 			stored := make(chan error, 1)
+			running := make(chan struct{})
 			mg.Go("finishing its last frame", func(w *mgr.WorkerCtx) error {
+				close(running) // the manager counts this worker from here on: Stop waits for it
 				<-w.Done()
 				var err error
 				if what != "mapping" {
@@ -78,7 +80,12 @@ func shutdownWindow(t *testing.T, rep *kit.Report, env kit.Env) (evals int64) {
 				stored <- err
 				return nil
 			})
-			time.Sleep(50 * time.Millisecond) // let the workers begin
+			select {
+			case <-running:
+			case <-time.After(120 * time.Second):
+				rep.Violate("shutdown-window/worker-never-started", "a worker registered on the "+module+" module's manager did not start within two minutes", nil)
+				continue
+			}
 			stoppedOK := inst.Stop()
 			evals++
 			var serr error
